@@ -154,3 +154,10 @@ Print Assumptions C19_csharp_invariant_decidable.
 Theorem C19_csharp_source_now : forallb snd Tables.prng_facts = true /\ (14 <= List.length Tables.prng_facts)%nat.
 Proof. exact tables_prng_facts. Qed.
 Print Assumptions C19_csharp_source_now.
+
+(* the .NET generator's cursors: seeded at 0 and 21, and from any state with both in 0..55 every call
+   reads and writes the 56-entry table at 1..55 only (no out-of-bounds index for any call sequence) *)
+Theorem C19_csharp_cursors : (forall seed, CCur (cnew seed)) /\ (forall s, CCur s ->
+  1 <= cnext (snd (csample_int s)) <= 55 /\ 1 <= cnextp (snd (csample_int s)) <= 55 /\ CCur (snd (csample_int s))).
+Proof. exact (conj ccursor_new ccursor_step). Qed.
+Print Assumptions C19_csharp_cursors.
